@@ -642,6 +642,64 @@ fn one_export(ctx: &mut Ctx, ex: &Export, with: &[&Export]) {
             ctx.count("agree:export");
         }
     }
+    // the roots themselves, as the export of a service does it: a service with one method per root, printed
+    // together with the environment, must check again and its argument types must still mean the Rust types
+    // (a name used by a root but missing from the environment shows up here)
+    {
+        use candid::types::{Function, TypeInner};
+        let meths: Vec<(String, Type)> = roots
+            .iter()
+            .enumerate()
+            .map(|(k, (_, root))| (format!("r{k}"), Type::from(TypeInner::Func(Function { modes: vec![], args: vec![root.clone()], rets: vec![root.clone()] }))))
+            .collect();
+        let actor: Type = TypeInner::Service(meths).into();
+        let with_actor = match catch(|| candid::pretty::candid::compile(&env, &Some(actor.clone()))) {
+            Ok(t) => t,
+            Err(p) => {
+                ctx.violation(&format!("export|compile-panic|{}", stable_location(&p.location)), &p.message, input.clone());
+                return;
+            }
+        };
+        let input2 = json!({"rust_types": names, "printed": clip(&with_actor)});
+        match parse_check(&with_actor) {
+            Err(e) => {
+                let c = reparse_class(&e);
+                if !(c.starts_with("name-true/false") || c.starts_with("NUL-")) {
+                    ctx.violation(
+                        &format!("export|service-over-roots-reparse-fails|{c}|{}", ex.name),
+                        &format!("a service over the exported types {names:?} is rejected after printing: {}", e.message().lines().next().unwrap_or("")),
+                        input2,
+                    );
+                }
+            }
+            Ok((env2, Some(actor2), _)) => {
+                let mut b = FromCandid::new(&env2);
+                if let TypeInner::Service(ms) = actor2.as_ref() {
+                    for (k, (e, _)) in roots.iter().enumerate() {
+                        let (xenv, xt) = (e.expected)();
+                        let Some((_, mt)) = ms.iter().find(|m| m.0 == format!("r{k}")) else { continue };
+                        let TypeInner::Func(f) = mt.as_ref() else { continue };
+                        for (side, t) in [("argument", &f.args[0]), ("result", &f.rets[0])] {
+                            match b.ty(t) {
+                                Ok(rt) => {
+                                    if !eq2(&xenv, &xt, &b.out, &rt) {
+                                        ctx.violation(
+                                            &format!("export|service-over-roots-differs|{}|{side}", e.name),
+                                            &format!("{side} type of method r{k} after printing: {}, expected {xt} in [{xenv}]", crate::mon::common::shape(&b.out, &rt, 4)),
+                                            input2.clone(),
+                                        );
+                                    }
+                                }
+                                Err(m) => ctx.violation(&format!("export|unconvertible|{}", e.name), &m, input2.clone()),
+                            }
+                        }
+                    }
+                    ctx.count("agree:export-service-over-roots");
+                }
+            }
+            Ok(_) => ctx.violation("export|service-over-roots-lost-actor", "the printed program has no service", input2),
+        }
+    }
     ctx.count(&format!("cover:export:{}", ex.name));
     ctx.nontrivial(hash_str(&format!("export:{names:?}")));
 }
